@@ -271,6 +271,10 @@ pub mod event {
     pub const LIST_FINALIZE: u16 = 17;
     /// `a` = element id. The element's memory was released (shim list).
     pub const LIST_FREE: u16 = 18;
+    /// a participant record was created and inserted into the registry (a = record, b = its `Global`)
+    pub const LOCAL_REGISTER: u16 = 19;
+    /// a participant record was freed (a = record)
+    pub const LOCAL_FREE: u16 = 20;
 
     pub fn name(k: u16) -> &'static str {
         match k {
@@ -292,6 +296,8 @@ pub mod event {
             16 => "COLLECT",
             17 => "LIST_FINALIZE",
             18 => "LIST_FREE",
+            19 => "LOCAL_REGISTER",
+            20 => "LOCAL_FREE",
             _ => "?",
         }
     }
